@@ -19,9 +19,10 @@ class Ctx:
         return self._cg
 
     def cfg(self, f):
-        if f.qual not in self._cfgs:
-            self._cfgs[f.qual] = CFG(f.node)
-        return self._cfgs[f.qual]
+        key = (f.qual, id(f.node))        # a pipeline view and the function it was made from share the qualified name
+        if key not in self._cfgs:
+            self._cfgs[key] = CFG(f.node)
+        return self._cfgs[key]
 
     def func(self, qual):
         return self.prog.func(qual)
